@@ -4,7 +4,7 @@ C10 - flags are well-typed, shared with tracts, and raised whenever warranted.
 (1) The C03 input space (token soup, damaged seeds, specials x parse modes): typing / pairing /
     hand-down / flawed invariants on the description and on every tract.
 (2) Trigger phrases: 12 phrases inserted at every token boundary of 16 seed descriptions x
-    {default, sec_within, sec_colon_required, sec_colon_cautious}: the corresponding warning flag
+    {default, sec_within, both colon modes, every forced layout, ocr_scrub, clean_qq}: the corresponding warning flag
     must be present and one of its context strings must contain the triggering word.
 """
 import warnings
@@ -15,7 +15,7 @@ from .. import soup
 ID = 'C10'
 LEVEL = 'model_checking'
 TECHNIQUE = ('token-soup / damage-edit enumeration x parse modes with a typing-pairing-hand-down invariant on every result, plus all '
-             'placements of 12 trigger phrases at every token boundary of 16 seed descriptions x 4 modes')
+             'placements of 12 trigger phrases at every token boundary of 16 seed descriptions x 11 modes')
 LEVEL_TEXT = ('The flag invariants (lists of str paired one-to-one with 2-tuples of str, description flags present on every tract, '
               'flawed iff error flag, error TRS implies error flag) are evaluated on every result of the C03 space; the trigger clause '
               'is decided on every insertion point of every phrase in every seed. Both known historic failures (a tuple stored as a '
@@ -44,7 +44,8 @@ TRIGGERS = {
     'the Johnston wellbore': ('well', ['wellbore']),
     'the well': ('well', ['well']),
 }
-TRIGGER_MODES = ['default', 'sec_within', 'sec_colon_required', 'sec_colon_cautious']
+TRIGGER_MODES = ['default', 'sec_within', 'sec_colon_required', 'sec_colon_cautious', 'cfg:TRS_desc', 'cfg:desc_STR', 'cfg:S_desc_TR',
+                 'cfg:TR_desc_S', 'cfg:copy_all', 'ocr_scrub', 'clean_qq']
 _p = None
 
 
